@@ -289,6 +289,7 @@ func j2(pool ammtypes.Pool, la, T sdkmath.Int) {
 // J1 with an arbitrary list of two offered coins: each coin's denom is either pool asset (so the list may name the
 // same asset twice, which per-coin message validation lets through). Whatever the list, minted shares are at most
 // pro-rata to what is actually used of EVERY pool asset.
+//
 //vrf:cover join-ok refused
 //vrf:bound 2 assets; a list of 2 offered coins whose denoms are chosen freely among the pool's assets (duplicates included); amounts, reserves, supply unbounded positive
 func H_J1_AnyCoinList() {
@@ -312,4 +313,39 @@ func H_J1_AnyCoinList() {
 	ja, ju := joined.AmountOf("uatom"), joined.AmountOf("uusdc")
 	vrf.Assert(shares.Mul(la).LTE(ja.Mul(T)), "J1 any list: shares*L_atom <= used_atom*T (every asset is contributed pro rata)")
 	vrf.Assert(shares.Mul(lu).LTE(ju.Mul(T)), "J1 any list: shares*L_usdc <= used_usdc*T (every asset is contributed pro rata)")
+}
+
+// J3 oracle pool, single-asset join through the real Pool.JoinPool, priced against the pool's CURRENT value while the
+// start-of-block snapshot it is handed (used for weights) is an arbitrary different state: the minted shares are worth
+// at most the deposit at oracle prices, shares * TVL(pool now) <= T * value(deposit) + TVL (half a share unit of rounding).
+//
+//vrf:cover join-ok
+//vrf:summary github.com/elys-network/elys/x/amm/types.GetWeightBreakingFee => sumWBF
+//vrf:bound oracle pool, 2 assets, symbolic oracle prices > 0; current reserves / supply and the snapshot's reserves independent symbolic values; weight-breaking fee havocked in [0, 0.99]
+//vrf:assert-ms 120000
+func H_J3_OracleSingleAssetJoin() {
+	pool, _, _, T := symPool(true)
+	sa, su := vrf.Int("snapAtom"), vrf.Int("snapUsdc")
+	vrf.Assume(sa.IsPositive())
+	vrf.Assume(su.IsPositive())
+	snap := mkPool(sa, su, T, true)
+	a := vrf.Int("inAtom")
+	vrf.Assume(a.IsPositive())
+	pa, pu := vrf.Dec("pAtom"), vrf.Dec("pUsdc")
+	vrf.Assume(pa.IsPositive())
+	vrf.Assume(pu.IsPositive())
+	ctx := vrf.NewCtx(vrf.NewWorld())
+	o := oracle{pa: pa, pu: pu}
+	tvl, terr := pool.TVL(ctx, o, noAcc{})
+	if terr != nil {
+		return
+	}
+	_, shares, _, _, err := pool.JoinPool(ctx, &snap, o, noAcc{}, sdk.Coins{sdk.Coin{Denom: "uatom", Amount: a}}, ammtypes.DefaultParams())
+	if err != nil {
+		return
+	}
+	vrf.Cover("join-ok")
+	vrf.Observe("shares", shares)
+	value := pa.MulInt(a)
+	vrf.Assert(tvl.MulInt(shares).LTE(value.MulInt(T).Add(tvl)), "J3: shares minted by an oracle-pool single-asset join are worth at most the deposit at oracle prices (priced on the pool's current value)")
 }
